@@ -105,6 +105,13 @@ impl BlockCache {
 		}
 	}
 
+	/// Drops every cached entry. Used when the files the keys refer to are
+	/// replaced wholesale (restore from a checkpoint rewinds table ids and
+	/// value-log files, so the same keys would name different bytes).
+	pub(crate) fn clear(&self) {
+		self.data.clear();
+	}
+
 	/// Inserts a data block into the cache.
 	pub(crate) fn insert_data_block(&self, table_id: u64, offset: u64, block: Arc<Block>) {
 		self.data.insert((KIND_DATA, table_id, offset).into(), Item::Data(block));
